@@ -191,6 +191,13 @@ func externallyManaged(c *Case) bool {
 	return c.Field == "extI" || (c.Field == "dualI" && !c.Fallback)
 }
 
+// resolverPaginates: externally managed and the resolver's own PaginationInfo is reported (no SetPageInfo) - there is no
+// thunder page info to follow, so such connections are not walked.  With SetPageInfo thunder slices the returned list and
+// computes hasNextPage / cursors itself: walks over it must partition what the resolver returned.
+func resolverPaginates(c *Case) bool {
+	return externallyManaged(c) && (c.Ext == nil || !c.Ext.SetPageInfo)
+}
+
 // refList: the list that is paginated.  Thunder-managed: filtered, then sorted.  Externally managed: what
 // the resolver returned, filtered only if it asks for it (ApplyTextFilter), never sorted.
 func refList(c *Case, a Args) ([]Item, bool) {
